@@ -50,6 +50,7 @@ type Scenario struct {
 	NoAnnounce bool       `json:"noAnnounce"`
 	Announce   string     `json:"announce"` // header | outline | both (default both)
 	NoRetry    bool       `json:"noRetry"`
+	V1Window   string     `json:"v1Window"` // which heights in [allow, require) are v1 blocks (World.V1Window)
 	Probe      string     `json:"probe"` // directed reproduction, see probeOutlineSidechain
 }
 
@@ -119,6 +120,7 @@ func RunConverge(sc Scenario, slot int) (out *Outcome) {
 	}
 	w := NewWorld(sc.Allow, sc.Require, sc.Final)
 	w.Seed = fmt.Sprintf("%d|%s", hx.Seed(), sc.ID)
+	w.V1Window = sc.V1Window
 	mgr, err := buildTree(w, sc.Branches)
 	if err != nil {
 		fail("infra:tree", "%v", err)
@@ -153,7 +155,7 @@ func RunConverge(sc Scenario, slot int) (out *Outcome) {
 					ok = false
 				}
 			}
-			if ok && w.HeightOf(wt) < sc.Allow {
+			if wb := w.Block(wt); ok && wb.V2 == nil {
 				// the final tip must be a v2 block: a v1 block has no outline, it can only be
 				// announced by header, and a header that attaches to the receiver's tip is merely
 				// relayed on (peer.go:373-380) -- a node one block behind would never fetch it
@@ -163,7 +165,7 @@ func RunConverge(sc Scenario, slot int) (out *Outcome) {
 				heaviest = wt
 				break
 			}
-			if iter > 20 {
+			if iter > 60 {
 				fail("infra:winner", "cannot make branch %s sufficiently heavier", sc.Winner)
 				return
 			}
